@@ -13,13 +13,17 @@ import autofit as af
 
 
 class SpecAnalysis(af.Analysis):
-    def __init__(self, terms, reject=None, slow=None):
+    def __init__(self, terms, reject=None, slow=None, ret="float"):
+        # type of the returned log likelihood: Python float | numpy.float64 | 0-d numpy array | 1-element array
+        self.ret = ret
         self.terms = [(tuple(p), float(c), float(t)) for p, c, t in terms]
         # optional (path, threshold, seconds): evaluations with value < threshold take longer, so that
         # parallel evaluations complete out of submission order
         self.slow = None if slow is None else (tuple(slow[0]), float(slow[1]), float(slow[2]))
         # optional region in which the fit is impossible: (path, lo, hi) -> FitException
         self.reject = None if reject is None else (tuple(reject[0]), float(reject[1]), float(reject[2]))
+        # what happens inside the region: "fitexc" raises FitException, "nan" returns NaN
+        self.reject_mode = "fitexc" if reject is None or len(reject) < 4 else reject[3]
 
     def log_likelihood_function(self, instance):
         if self.reject is not None:
@@ -27,6 +31,8 @@ class SpecAnalysis(af.Analysis):
             for name in self.reject[0]:
                 obj = getattr(obj, name)
             if self.reject[1] <= obj < self.reject[2]:
+                if self.reject_mode == "nan":
+                    return np.array(float("nan")) if self.ret == "np0d" else np.float64("nan") if self.ret == "np64" else float("nan")
                 raise af.exc.FitException("rejected region")
         if self.slow is not None:
             obj = instance
@@ -40,6 +46,10 @@ class SpecAnalysis(af.Analysis):
             for name in path:
                 obj = getattr(obj, name)
             total += c * (obj - t) ** 2
+        if self.ret == "np64":
+            return np.float64(-total)
+        if self.ret == "np0d":
+            return np.array(-total)
         return -total
 
 
@@ -118,9 +128,14 @@ class ScriptedFitness:
             total = total + (i + 1.0) * (float(v) * float(v))
         return -total
 
+    VALID = {"zero": 0.0, "negzero": -0.0, "int": -3.0}      # legal figures of merit that are falsy / not floats
+
     def outcome(self, parameters):
         """What figure_of_metric returns: the value, or None."""
-        return self.value_of(parameters) if self.kind_of(parameters) == "value" else None
+        k = self.kind_of(parameters)
+        if k in self.VALID:
+            return self.VALID[k]
+        return self.value_of(parameters) if k in ("value", "np0d") else None
 
     def __call__(self, parameters):
         kind = self.kind_of(parameters)
@@ -134,4 +149,12 @@ class ScriptedFitness:
             return -1.0e99
         if kind == "neginf":
             return float("-inf")
+        if kind == "zero":
+            return 0.0
+        if kind == "negzero":
+            return -0.0
+        if kind == "int":
+            return -3
+        if kind == "np0d":
+            return np.array(self.value_of(parameters))
         return self.value_of(parameters)
